@@ -120,8 +120,11 @@ const c02Chunk = 20000
 // F3 (--now): record dates relative to the clock x open-range starts x clock readings
 var c02NowDays = []int{0, -1, -2, 1}
 var c02NowStarts = []string{"<23:00", "0:00", "0:01", "8:00", "11:59", "12:00", "12:01", "23:59", "0:30>", "23:59>"}
-var c02NowClock = [][2]int{{0, 0}, {0, 1}, {11, 59}, {12, 0}, {23, 59}}
-var c02NowToday = [][3]int{{2021, 3, 5}, {2024, 3, 1}, {2021, 1, 1}}
+var c02NowClock = [][2]int{{0, 0}, {0, 1}, {0, 30}, {11, 59}, {12, 0}, {23, 30}, {23, 59}}
+
+// (2024-04-01 and 2024-10-27: clidrv expresses clock readings on these days in Europe/Berlin, where the day before /
+// the day itself is not 24 hours long)
+var c02NowToday = [][3]int{{2021, 3, 5}, {2024, 3, 1}, {2021, 1, 1}, {2024, 4, 1}, {2024, 10, 27}}
 
 func c02NowCount() int {
 	return len(c02NowDays) * len(c02NowDays) * len(c02NowStarts) * len(c02NowClock) * len(c02NowToday) * 3
@@ -133,7 +136,7 @@ func init() {
 		Title: "Total, should-total and diff follow the specification's evaluation rules",
 		Rule: "F1 = one record with every sequence of <=3 entries over a menu of 11 durations, all 66 valid ordered pairs of 11 boundary times (<0:00 .. 23:59>, 24:00 spellings, 12h) and 5 open ranges; " +
 			"F2 = two records (same date, ascending, descending with mixed separators) x <=2 entries from 12 x 4 should-totals each; thorough adds three records and every shifted time as range start; " +
-			"F3 = --now: two records dated {today, yesterday, 2 days ago, tomorrow}^2 with an open range starting at 10 boundary times x 5 clock readings x 3 calendar days (month/leap/year boundary). " +
+			"F3 = --now: two records dated {today, yesterday, 2 days ago, tomorrow}^2 with an open range starting at 10 boundary times x 7 clock readings x 5 calendar days (month/leap/year boundary, the days around two daylight-saving transitions in the clock's zone). " +
 			"F4 = `today --now --diff --follow` on every F3 document and clock over a history of 3 refreshes (+45 min, +13 h 45 min; file unchanged, or swapped for another document and back): each refresh must equal a fresh one-shot run at that instant. " +
 			"non-trivial = reference-valid with at least one entry; distinct by text (+clock) hash.",
 		Assumptions: []string{
@@ -144,6 +147,9 @@ func init() {
 			return len(planSpans(append(famSizes(c02Families(t)), c02NowCount(), 2*c02NowCount()), c02Chunk))
 		},
 		RunUnit: func(c *fw.Ctx, unit int) {
+			if unit == 0 {
+				c02Big(c)
+			}
 			fs := c02Families(c.Tier)
 			sp := planSpans(append(famSizes(fs), c02NowCount(), 2*c02NowCount()), c02Chunk)[unit]
 			for i := sp.lo; i < sp.hi; i++ {
@@ -164,7 +170,9 @@ func init() {
 			if json.Unmarshal(raw, &cs) != nil {
 				return
 			}
-			if cs.Fam == "F3" {
+			if cs.Fam == "big" {
+				c02Big(c)
+			} else if cs.Fam == "F3" {
 				c02Now(c, cs.I)
 			} else if cs.Fam == "F4" {
 				c02Follow(c, cs.I)
@@ -544,4 +552,47 @@ func c02Split(text string, recs []sm.Record) []string {
 		}
 	}
 	return []string{a.String(), b.String()}
+}
+
+
+// c02Big: one large input (40 000 records, about 2.4 MB) evaluates to the same total whether it is named as a file,
+// spread over two files or piped through standard input (nothing may be cut off silently on any input path).
+func c02Big(c *fw.Ctx) {
+	var b strings.Builder
+	total, should := 0, 0
+	for i := 0; i < 40000; i++ {
+		d := sm.FromDayNumber(sm.DayNumber(sm.Date{Y: 1900, M: 1, D: 1}) + i)
+		fmt.Fprintf(&b, "%s (%dm!)\nrecord number %d #big\n    %dm counted\n    8:00 - 8:%02d\n\n", sm.DateLit{Date: d}.String(), i%600, i, i%97, i%60)
+		total += i%97 + i%60
+		should += i % 600
+	}
+	text := b.String()
+	cs := c02Case{Fam: "big", I: 0, Text: fw.Txt(fmt.Sprintf("<40000 generated records, %d bytes>", len(text)))}
+	c.Eval(1)
+	c.Nontrivial(fw.HashString("c02-big"))
+	dir := fw.Scratch()
+	home := clidrv.Home("home-nobookmarks")
+	path := clidrv.WriteFile(dir, "big.klg", text)
+	half := strings.Index(text[len(text)/2:], "\n\n") + len(text)/2 + 2
+	pa := clidrv.WriteFile(dir, "big-a.klg", text[:half])
+	pb := clidrv.WriteFile(dir, "big-b.klg", text[half:])
+	want := fmt.Sprintf("Total: %d\nShould: %d!\nDiff: %d\n(In 40000 records)\n", total, should, total-should)
+	for name, run := range map[string]func() clidrv.Result{
+		"FILE": func() clidrv.Result {
+			return clidrv.Run(home, clidrv.Opts{Now: fixedNow, NumCpus: 4}, "total", "--diff", "--decimal", "--no-style", "--no-warn", path)
+		},
+		"FILE-A FILE-B": func() clidrv.Result {
+			return clidrv.Run(home, clidrv.Opts{Now: fixedNow}, "total", "--diff", "--decimal", "--no-style", "--no-warn", pa, pb)
+		},
+		"< FILE (standard input)": func() clidrv.Result {
+			return clidrv.Run(home, clidrv.Opts{Now: fixedNow, OSStdin: &text}, "total", "--diff", "--decimal", "--no-style", "--no-warn")
+		},
+	} {
+		r := run()
+		if r.Panicked || r.Code != 0 || strings.Replace(r.Stdout, "!\n", "\n", 1) != strings.Replace(want, "!\n", "\n", 1) {
+			c.Violation("big-input", cs, fmt.Sprintf("`klog total --diff --decimal %s` on 40000 records (exit %d, panic %v %s) printed %q, expected %q", name, r.Code, r.PanicVal, r.Err, r.Stdout, want))
+			return
+		}
+	}
+	c.Outcome("big-input-ok")
 }
